@@ -59,6 +59,10 @@ Proof.
   - apply Z.ltb_ge in E. destruct n; try reflexivity; lia.
 Qed.
 
+Lemma bind_unfold {S A B} (m : M S A) (f : A -> M S B) (s : S) :
+  bind m f s = match m s with (s1, inr a) => f a s1 | (s1, inl e) => (s1, inl e) end.
+Proof. reflexivity. Qed.
+
 Section Equiv.
 Variables G F T : Type.
 Variables ltb leb : T -> T -> bool.
@@ -67,11 +71,7 @@ Variable one : T.
 Variable mate_o : nat -> G * option F -> G * option F -> mate_ans G F.
 Variable mut_o : nat -> G * option F -> mut_ans G F.
 Notation st := (st G F T).
-Notation M := (M G F T).
-
-Lemma bind_unfold {A B} (m : M A) (f : A -> M B) (s : st) :
-  bind m f s = match m s with (s1, inr a) => f a s1 | (s1, inl e) => (s1, inl e) end.
-Proof. reflexivity. Qed.
+Notation M := (M st).
 
 Definition lift (pre : list nat) (r : st * (exn + list nat)) : st * (exn + list nat) :=
   match r with (s', inr l') => (s', inr (pre ++ l')) | (s', inl e) => (s', inl e) end.
